@@ -1047,6 +1047,10 @@ class CPreProcessor:
             lhs, _ = charval(replace_escape_codes(token.val))
             # TODO: check type specifier?
             lhs = expressions.NumericLiteral(lhs, self._int_type, token.loc)
+        elif token.typ in ["FLOAT", "PPNUMBER"]:
+            self.error(
+                f"{token.val} is not an integer constant", loc=token.loc
+            )
         else:
             raise NotImplementedError(token.val)
 
@@ -1457,5 +1461,10 @@ def prepare_for_parsing(tokens, keywords):
             if token.val in keywords:
                 token.typ = token.val
             yield token
+        elif token.typ == "PPNUMBER":
+            # A preprocessing number which is not a valid constant.
+            raise CompilerError(
+                f"Invalid numeric constant {token.val}", loc=token.loc
+            )
         else:
             yield token
